@@ -67,8 +67,18 @@ Definition read_session_ideal (bdec : list byte -> list byte -> option (list byt
   : fres (list (fres (list byte))) :=
   match frame_decode bdec false [] file with
   | Some (C, []) => read_session idec (ideal0 file C) ideal_info ideal_dec fixed junk file sizes
-  | _ => FErr C10_ERR_GENERIC                     (* not exactly one frame: outside this instance *)
+  | _ =>
+    if Nat.ltb (length (firstn HEADER_MAX file)) OPEN_MIN
+    then read_session idec (ideal0 file []) ideal_info ideal_dec fixed junk file sizes
+         (* too short for LZ4F_readOpen: fails before any decompressor call *)
+    else FErr C10_ERR_GENERIC                     (* not exactly one frame: outside this instance *)
   end.
+
+(* the same with the content supplied by the caller (the harness has checked, or knows, that
+   [file] is one frame of [content]; used when decoding by the specification is too slow) *)
+Definition read_session_given (content : list byte) (fixed : bool) (junk file : list byte) (sizes : list nat)
+  : fres (list (fres (list byte))) :=
+  read_session idec (ideal0 file content) ideal_info ideal_dec fixed junk file sizes.
 
 (* the file LZ4F_writeOpen(NULL preferences) + LZ4F_writeClose leaves for empty content:
    7 header bytes (64 KB linked blocks, no checksums) and the end mark *)
